@@ -206,7 +206,9 @@ class Register:
 
         context = context or {}
 
-        if self.size is not None and idx >= self.size:
+        size = self.size
+        if size is not None and idx >= int(size):
+            # int() because the size may be given by a let constant
             raise JaqalError("Index out of range.")
         if self.fundamental:
             return (self, idx)
